@@ -149,6 +149,9 @@ theorem C08_length_bound_b85 (bs : List Nat) (_hb : Bytes bs) :
 
 /-! ## Base91 -/
 
+theorem C08_roundtrip_b91 (bs : List Nat) (hb : Bytes bs) : decode .b91 (encode .b91 bs) = some bs :=
+  b91_roundtrip gen_cb91 bs hb
+
 theorem C08_alphabet_safe_b91 (bs : List Nat) (hb : Bytes bs) : ∀ c ∈ encode .b91 bs, dnsSafe c = true :=
   mem_map_alpha_safe _ 91 gen_safe91 _ (b91_digits_lt bs hb 0 0 (by decide) (by decide))
 
@@ -242,21 +245,20 @@ theorem C08_witness_b192 :
     exact absurd this (by decide)
   exact ⟨h1, h2, hr, ha, fun hf => hr (hf .b192 (by decide)).1⟩
 
-/-- the proved region: the whole registry except Base192 (and, for round trip, see
-    `C08_roundtrip_b91` below) -/
+/-- the proved region: the whole registry except Base192 -/
 theorem C08_partial :
     ∀ cd ∈ registry, cd ≠ .b192 →
-      (cd ≠ .b91 → RoundTrip cd) ∧ (isText cd = true → AlphabetSafe cd) ∧ LengthBound cd := by
+      RoundTrip cd ∧ (isText cd = true → AlphabetSafe cd) ∧ LengthBound cd := by
   intro cd _ hne
   cases cd with
-  | b32 => exact ⟨fun _ => C08_roundtrip_b32, fun _ => C08_alphabet_safe_b32, C08_length_bound_b32⟩
-  | b64 => exact ⟨fun _ => C08_roundtrip_b64, fun _ => C08_alphabet_safe_b64, C08_length_bound_b64⟩
-  | b64u => exact ⟨fun _ => C08_roundtrip_b64u, fun _ => C08_alphabet_safe_b64u, C08_length_bound_b64u⟩
-  | b85 => exact ⟨fun _ => C08_roundtrip_b85, fun _ => C08_alphabet_safe_b85, C08_length_bound_b85⟩
-  | b91 => exact ⟨fun h => absurd rfl h, fun _ => C08_alphabet_safe_b91, C08_length_bound_b91⟩
-  | b128 => exact ⟨fun _ => C08_roundtrip_b128, fun _ => C08_alphabet_safe_b128, C08_length_bound_b128⟩
+  | b32 => exact ⟨C08_roundtrip_b32, fun _ => C08_alphabet_safe_b32, C08_length_bound_b32⟩
+  | b64 => exact ⟨C08_roundtrip_b64, fun _ => C08_alphabet_safe_b64, C08_length_bound_b64⟩
+  | b64u => exact ⟨C08_roundtrip_b64u, fun _ => C08_alphabet_safe_b64u, C08_length_bound_b64u⟩
+  | b85 => exact ⟨C08_roundtrip_b85, fun _ => C08_alphabet_safe_b85, C08_length_bound_b85⟩
+  | b91 => exact ⟨C08_roundtrip_b91, fun _ => C08_alphabet_safe_b91, C08_length_bound_b91⟩
+  | b128 => exact ⟨C08_roundtrip_b128, fun _ => C08_alphabet_safe_b128, C08_length_bound_b128⟩
   | b192 => exact absurd rfl hne
-  | raw => exact ⟨fun _ => C08_roundtrip_raw, fun h => by simp [isText] at h, C08_length_bound_raw⟩
+  | raw => exact ⟨C08_roundtrip_raw, fun h => by simp [isText] at h, C08_length_bound_raw⟩
 
 /-! ## non-vacuity: the hypotheses are satisfiable and the functions compute on real inputs -/
 
@@ -301,6 +303,7 @@ end SA.Codec
 #print axioms SA.Codec.C08_roundtrip_b85
 #print axioms SA.Codec.C08_alphabet_safe_b85
 #print axioms SA.Codec.C08_length_bound_b85
+#print axioms SA.Codec.C08_roundtrip_b91
 #print axioms SA.Codec.C08_alphabet_safe_b91
 #print axioms SA.Codec.C08_length_bound_b91
 #print axioms SA.Codec.C08_roundtrip_raw
